@@ -22,7 +22,7 @@ ASSUMPTIONS = ['float64; tolerance 1e-11 * gain * max|x|',
                'the separable functional bank is itself anchored to pywt.dwt2/idwt2 in the same run']
 TIMEOUT = {'quick': 900, 'thorough': 3000}
 WORKER_BUDGET = {'quick': 600, 'thorough': 2400}
-MIN_HELD = {'quick': 300, 'thorough': 1500}
+MIN_HELD = {'quick': 300, 'thorough': 26706}
 HS = [2, 3, 4, 5, 6, 7, 8, 9, 12, 13, 16]
 WS = [2, 3, 4, 6, 7, 11, 16]
 
